@@ -139,18 +139,18 @@ impl Scenario for Flow {
     }
     fn budget(&self, target: &str, tier: Tier) -> u64 {
         let q = match target {
-            "C01" => 60_000,
-            "C02" => 30_000,
-            "C04" => 100_000,
-            "C06" => 60_000,
-            "C07" => 150_000,
-            "C10" => 80_000,
-            "C11" => 40_000,
-            "C12" => 40_000,
-            "C13" => 80_000,
-            "C15" => 50_000,
-            "C18" => 60_000,
-            "C19" => 80_000,
+            "C01" => 240000,
+            "C02" => 150000,
+            "C04" => 300000,
+            "C06" => 200000,
+            "C07" => 600000,
+            "C10" => 400000,
+            "C11" => 160000,
+            "C12" => 200000,
+            "C13" => 400000,
+            "C15" => 200000,
+            "C18" => 200000,
+            "C19" => 400000,
             _ => 0,
         };
         match tier {
@@ -160,6 +160,16 @@ impl Scenario for Flow {
     }
     fn rule(&self) -> &'static str {
         "seeded programs of sender calls (submit/cont/config/frame) executed against real Encapsulator and Decapsulator in lock-step; a run is non-trivial when at least one sender-produced packet reached the receiver and was compared with the expectation ledger (for C07: >=2 streams with >=1 context switch; C10: >=2 packets walked in one frame; C13: >=1 extension-bearing packet compared); distinct = distinct program hashes"
+    }
+    fn expected_probes(&self, target: &str) -> &'static [&'static str] {
+        match target {
+            "C01" => &["substituted_reuse", "gse_len_4095"],
+            "C02" | "C11" | "C12" => &["substituted_first_fragment", "crc_only_end_packet", "zero_payload_first_fragment", "gse_len_4095", "total_len_65535"],
+            "C04" | "C15" => &["substituted_reuse", "substituted_first_fragment"],
+            "C07" => &["aliasing_stray_on_open_slot", "restart_same_fid", "first_fragment_claims_aliased_slot"],
+            "C10" | "C19" => &["rejected_packet_walked", "padding_walked", "substituted_reuse"],
+            _ => &[],
+        }
     }
     fn components_real(&self) -> &'static [&'static str] {
         &["Encapsulator::{encap,encap_frag,encap_ext,setters,reset_last_label}", "encap_preview", "encap_frag_preview", "Decapsulator::{decap,get_label_or_frag_id,provision_storage,reset_last_label}", "SimpleGseMemory (behind LedgerMemory)", "DefaultCrc (behind RecordingCrc)", "Extension::new"]
@@ -754,6 +764,7 @@ impl Scenario for Flow {
                             Kind::First => {
                                 if alias {
                                     f.tainted = true;
+                                    ex.st.inc("probe.first_fragment_claims_aliased_slot");
                                 }
                             }
                             Kind::Complete => {}
@@ -1098,12 +1109,12 @@ pub mod gen {
     }
 
     pub fn generate(target: &str, idx: u64, rng: &mut Rng, tier: Tier) -> Program {
-        let _ = (idx, tier);
+        let _ = tier;
         match target {
             "C01" => gen_c01(rng),
             "C02" | "C11" | "C12" | "C18" => gen_c02(rng, target),
             "C04" | "C15" => gen_c04(rng, target == "C15"),
-            "C07" => gen_c07(rng),
+            "C07" => gen_c07(rng, idx),
             "C10" | "C19" => gen_c10(rng),
             "C13" => gen_c13(rng),
             "C06" => match rng.below(4) {
@@ -1251,9 +1262,56 @@ pub mod gen {
         Program { scenario: "flow", cfg: cfg(8, 1100, 10, 0, &ExtTable::default()), ops }
     }
 
-    fn gen_c07(rng: &mut Rng) -> Program {
-        let slots = rng.usize_in(2, 4);
-        let k = rng.usize_in(2, slots.min(4));
+    /// all order-preserving merges of streams with `shape[i]` packets each, in lexicographic order
+    pub fn merges(shape: &[usize]) -> Vec<Vec<usize>> {
+        fn rec(left: &mut Vec<usize>, cur: &mut Vec<usize>, out: &mut Vec<Vec<usize>>) {
+            if left.iter().all(|l| *l == 0) {
+                out.push(cur.clone());
+                return;
+            }
+            for i in 0..left.len() {
+                if left[i] > 0 {
+                    left[i] -= 1;
+                    cur.push(i);
+                    rec(left, cur, out);
+                    cur.pop();
+                    left[i] += 1;
+                }
+            }
+        }
+        let mut out = vec![];
+        rec(&mut shape.to_vec(), &mut vec![], &mut out);
+        out
+    }
+    pub const SMALL_SHAPES: [&[usize]; 4] = [&[2, 2], &[2, 3], &[3, 3], &[2, 2, 2]];
+    /// number of merges of the small shapes: 6 + 10 + 20 + 90
+    pub const SMALL_MERGES: u64 = 126;
+
+    fn gen_c07(rng: &mut Rng, idx: u64) -> Program {
+        // the first runs enumerate every merge of the small shapes (8 stray/size variations each)
+        let forced: Option<(Vec<usize>, Vec<usize>)> = if idx < SMALL_MERGES * 8 {
+            let mut m = idx % SMALL_MERGES;
+            let mut r = None;
+            for sh in SMALL_SHAPES.iter() {
+                let all = merges(sh);
+                if (m as usize) < all.len() {
+                    r = Some((sh.to_vec(), all[m as usize].clone()));
+                    break;
+                }
+                m -= all.len() as u64;
+            }
+            r
+        } else {
+            None
+        };
+        let slots = match &forced {
+            Some((sh, _)) => rng.usize_in(sh.len(), 4),
+            None => rng.usize_in(2, 4),
+        };
+        let k = match &forced {
+            Some((sh, _)) => sh.len(),
+            None => rng.usize_in(2, slots.min(4)),
+        };
         // distinct slots
         let mut slot_of: Vec<usize> = (0..slots).collect();
         for i in (1..slot_of.len()).rev() {
@@ -1264,7 +1322,10 @@ pub mod gen {
         let mut maxlen = 1;
         for s in 0..k {
             let fid = (slot_of[s] + slots * rng.usize_in(0, 255 / slots - 1)) as u8;
-            let nfrag = rng.usize_in(2, 5);
+            let nfrag = match &forced {
+                Some((sh, _)) => sh[s],
+                None => rng.usize_in(2, 5),
+            };
             let len = rng.usize_in(nfrag * 2, 400);
             maxlen = maxlen.max(len);
             streams.push((fid, len, nfrag, label(rng, false), ptype(rng), rng.next()));
@@ -1276,9 +1337,11 @@ pub mod gen {
         let mut rem: Vec<usize> = streams.iter().map(|s| s.1).collect();
         let mut order_in_flights: Vec<usize> = vec![]; // stream index per flight slot (mirror of executor's table)
         let mut ops = vec![];
-        let used_fids: Vec<u8> = streams.iter().map(|s| s.0).collect();
+        let mut used_fids: Vec<u8> = streams.iter().map(|s| s.0).collect();
         let total: usize = left.iter().sum();
-        let mut step = 0;
+        let mut step = 0usize;
+        let restart_run = forced.is_none() && rng.chance(1, 5);
+        let mut restarted = false;
         while left.iter().any(|l| *l > 0) {
             // stray injection
             if rng.chance(1, 4) {
@@ -1286,7 +1349,7 @@ pub mod gen {
                 let sfid = match rng.below(3) {
                     0 => {
                         // aliasing an open slot with a different id
-                        let s = rng.below(k as u64) as usize;
+                        let s = rng.below(used_fids.len() as u64) as usize;
                         let base = used_fids[s] as usize % slots;
                         let mut f = (base + slots * rng.usize_in(0, 255 / slots - 1)) as u8;
                         if used_fids.contains(&f) {
@@ -1296,14 +1359,40 @@ pub mod gen {
                     }
                     _ => rng.below(256) as u8,
                 };
-                if !used_fids.contains(&sfid) && (kind != 1 || !used_fids.iter().any(|u| *u as usize % slots == sfid as usize % slots)) {
+                let allow_claim = rng.chance(1, 8);
+                if !used_fids.contains(&sfid) && (kind != 1 || allow_claim || !used_fids.iter().any(|u| *u as usize % slots == sfid as usize % slots)) {
                     let lab = label(rng, false);
-                    ops.push(Op::new("stray").u("kind", kind).u("fid", sfid as u64).u("len", rng.range(0, 40)).u("seed", rng.next()).h("lab", lab.enc()).u("total", rng.range(0, 300)).u("crc", rng.next() & 0xFFFF_FFFF));
+                    ops.push(Op::new("stray").u("kind", kind).u("fid", sfid as u64).u("len", rng.range(1, 40)).u("seed", rng.next()).h("lab", lab.enc()).u("total", rng.range(0, 300)).u("crc", rng.next() & 0xFFFF_FFFF));
+                }
+            }
+            // restart: a new PDU on the id of a stream in flight (the sender abandons the old PDU)
+            if restart_run && !restarted && rng.chance(1, 3) {
+                let c: Vec<usize> = (0..left.len()).filter(|s| started[*s] && left[*s] > 0).collect();
+                if !c.is_empty() {
+                    let s = *rng.pick(&c);
+                    let fid = streams[s].0;
+                    let nfrag = rng.usize_in(2, 4);
+                    let len = rng.usize_in(nfrag * 2, 300);
+                    maxlen = maxlen.max(len);
+                    left[s] = 0;
+                    order_in_flights.retain(|x| *x != s);
+                    streams.push((fid, len, nfrag, label(rng, false), ptype(rng), rng.next()));
+                    left.push(nfrag);
+                    started.push(false);
+                    rem.push(len);
+                    prio.push(rng.next());
+                    used_fids.push(fid);
+                    restarted = true;
                 }
             }
             // pick next stream
-            let cands: Vec<usize> = (0..k).filter(|s| left[*s] > 0).collect();
-            let s = if pct {
+            let cands: Vec<usize> = (0..left.len()).filter(|s| left[*s] > 0).collect();
+            if cands.is_empty() {
+                break;
+            }
+            let s = if let Some((_, m)) = &forced {
+                m[step.min(m.len() - 1)]
+            } else if pct {
                 if rng.chance(1, (total as u64 / 2).max(2)) {
                     let c = *rng.pick(&cands);
                     prio[c] = rng.next();
@@ -1334,7 +1423,6 @@ pub mod gen {
             }
             left[s] -= 1;
             step += 1;
-            let _ = step;
         }
         Program { scenario: "flow", cfg: cfg(slots, maxlen + 50, slots + 2, 0, &ExtTable::default()), ops }
     }
